@@ -331,13 +331,23 @@ Definition crop_tool (input : list N) (ms : N) : option (res (list N)) :=
   | FSencParse => None
   end.
 
-(* what the driver also reports: is the encoded length the sizeWithoutMdat that shifted the offsets? *)
-Definition crop_tool_sizes (input : list N) (ms : N) : option (res (N * N)) :=
+(* what the driver reports beside the outcome, in one pass: the output bytes, the encoded length of the non-mdat boxes and
+   the sizeWithoutMdat that shifted the offsets (they must agree), and the hypotheses of C10_output_decodes on this case
+   (input boxes exact, rebuilt leaves fit) *)
+Definition crop_tool_report (input : list N) (ms : N) : option (res (list N * (N * N) * (bool * bool))) :=
   match decode_file_sr input with
   | FOk ts =>
     match scope input ts with
     | None => None
-    | Some ci => Some (do x <- crop_tree ts ci ms; let '(out, _, swm) := x in Ok (sumN (map size_box out), swm))
+    | Some ci =>
+      Some (do x <- crop_tree ts ci ms;
+            let '(out, ranges, swm) := x in
+            do pre <- file_encode_w out;
+            do mb <- write_mdat input true (ci_mdat ci) ranges;
+            Ok (pre ++ mb, (sumN (map size_box out), swm), (forallb exact_box ts, forallb tree_fits out)))
     end
-  | _ => None
+  | FErr => Some Err
+  | FPanic => Some Panic
+  | FFuel => None
+  | FSencParse => None
   end.
